@@ -1,5 +1,4 @@
-import QuiverModel.Lemmas.VM.Shape
-import QuiverModel.Core.VM.Inv
+import QuiverModel.Lemmas.VM.Sound
 /-
 C07 — every function the compiler emits is well-formed bytecode.
 
@@ -175,6 +174,57 @@ def CheckAnnSoundStatement : Prop :=
       Inv P A p ∧
       ∀ ev, EventWF P ev → ∀ e, transition P p ev = some (.error e) → e.isStructural = false
 
+/-- **C07 headline theorem: `checkAnn` is sound for M-VM** (the full statement above). -/
+theorem checkAnn_sound : CheckAnnSoundStatement :=
+  fun _ _ hA _ _ h0 hr => checkAnn_sound_full hA h0 hr
+
+/-- `Executor::spawn_process` produces an entry state: an existing function, as many well-formed
+captures as it declares, a well-formed argument. -/
+theorem entryWF_spawn {P : Prog} {fi : Nat} {fn : Function} {caps : List Val} {arg : Val} {pid : Nat}
+    {persistent : Bool}
+    (hfn : P.functions[fi]? = some fn) (hlen : caps.length = fn.captures)
+    (hcaps : AllWF P caps) (harg : arg.wf P = true) :
+    EntryWF P (Proc.spawn pid fi caps arg persistent) where
+  frame := ⟨_, fn, rfl, rfl, hfn, hlen, by simp [Proc.spawn, Frame.new, hlen]⟩
+  stack := by simp [Proc.spawn]
+  stackWF := by simpa [Proc.spawn] using ⟨harg, AllWF.nil⟩
+  localsWF := hcaps
+  park := rfl
+  result := rfl
+  sel := rfl
+
+/-- Consequence in plain terms: while a process of a certified program runs (not parked, no
+`Select` in progress), its current frame is at an annotated pc with exactly the annotated stack
+height over the frame's base and at least the annotated locals, or is exactly exhausted with one
+value (the result) over the base. -/
+theorem running_shape {P : Prog} {A : Array Anns} (hA : AllChecked P A) {p0 p : Proc}
+    (h0 : EntryWF P p0) (hr : ReachWF P p0 p) {f : Frame} {rest : List Frame}
+    (hfr : p.frames = f :: rest) (hpark : p.park = .none) (hsel : p.selectState = none) :
+    ∃ fn sb, P.functions[f.functionIndex]? = some fn ∧
+      ((f.counter = fn.instructions.size ∧ p.stack.length = sb + 1 ∧ f.localsBase ≤ p.locals.length) ∨
+       (∃ a, (annsOf A f.functionIndex)[f.counter]? = some (some a) ∧ f.counter < fn.instructions.size ∧
+          p.stack.length = sb + a.height ∧ f.localsBase + a.locals ≤ p.locals.length)) := by
+  obtain ⟨hinv, _⟩ := checkAnn_sound P A hA p0 p h0 hr
+  obtain ⟨_, sb, htop, _⟩ := hinv.unpack hfr
+  cases htop with
+  | exhausted fn hfn hpc hs hl _ _ => exact ⟨fn, sb, hfn, Or.inl ⟨hpc, hs, hl⟩⟩
+  | normal fn a i hat hl hs _ _ => exact ⟨fn, sb, hat.hfn, Or.inr ⟨a, hat.hann, hat.lt_size.2, hs, hl⟩⟩
+  | spawning _ _ _ _ _ hp => rw [hp] at hpark; cases hpark
+  | effecting _ _ _ _ _ hp => rw [hp] at hpark; cases hpark
+  | selecting _ _ _ _ st hst => rw [hsel] at hst; cases hst
+
+/-- … and when its last frame has returned, exactly one value — the result — is there to take:
+`finish` never records `StackUnderflow`. -/
+theorem result_present {P : Prog} {A : Array Anns} (hA : AllChecked P A) {p0 p : Proc}
+    (h0 : EntryWF P p0) (hr : ReachWF P p0 p) (hfr : p.frames = []) (hres : p.result = none) :
+    ∃ v, (finish p).result = some (.ok v) := by
+  obtain ⟨hinv, _⟩ := checkAnn_sound P A hA p0 p h0 hr
+  have := hinv.shape
+  rw [hfr] at this
+  cases hst : p.stack with
+  | nil => exact absurd hst (this.2 hres)
+  | cons v s => exact ⟨v, by simp [finish, hres, hst]⟩
+
 /-! ### Examples: the hypotheses are satisfiable by concrete, non-trivial objects -/
 
 /-- `#'int { | =0 => 10 | 20 }`-like code: compare the argument with a constant and branch. -/
@@ -204,6 +254,26 @@ example : Entry exProg 0 exFn 0 0 (Proc.spawn 7 0 [] (.int 0)) :=
 /-- … and it takes a real step: after `Duplicate` the stack has two cells. -/
 example : ∃ p' act, transition exProg (Proc.spawn 7 0 [] (.int 0)) (.run C07Dummy.oracle) = some (.ok (p', act)) ∧
     p'.stack.length = 2 := ⟨_, _, rfl, rfl⟩
+
+/-- The example program is certified as a whole, and `Proc.spawn` is an entry state for it
+(hypotheses `AllChecked` / `EntryWF` of `checkAnn_sound`). -/
+example : AllChecked exProg #[inferAnn exProg 0] := by
+  intro f hf
+  have : f = 0 := by simp [exProg] at hf; omega
+  subst this
+  decide +kernel
+
+example : EntryWF exProg (Proc.spawn 7 0 [] (.int 0)) :=
+  entryWF_spawn (fn := exFn) rfl rfl (by simp [AllWF]) rfl
+
+/-- A program with a call: `f1` calls `f0` on its argument (`Function:0`, `Call`); both pass. -/
+def exCallProg : Prog :=
+  { exProg with functions := #[exFn, { instructions := #[.function 0, .call], captures := 0, typeId := 0 }] }
+
+example : AllChecked exCallProg #[inferAnn exCallProg 0, inferAnn exCallProg 1] := by
+  intro f hf
+  have : f = 0 ∨ f = 1 := by simp [exCallProg] at hf; omega
+  rcases this with rfl | rfl <;> decide +kernel
 
 /-- A function the checker rejects: the two branches join with different heights. -/
 example : checkAnn { exProg with functions := #[{ exFn with instructions := #[.duplicate, .jumpIf 1, .duplicate, .pop] }] } 0
